@@ -11,6 +11,20 @@ import re
 
 
 PROPS = {
+    "C11": {
+        "coq_targets": ["theories/Lex/RowColProofs.vo"],
+        "harness": ["c11"],
+        "disagreement_is_violation": True,
+        "axioms": [],
+        "trusted_base": COMMON_TB + [
+            "modelled, not verified: rusty_parser/src/input/row_col_view.rs create_row_col_view and string_view.rs position / eof_row_col as Lex/RowCol.v (characters as code points)",
+            "harness/src/c11.rs: the builder of faulty programs (it records the row, the column range and the character range of the injected statement and the rows of the call sites while it assembles the text), decoration with blank / comment lines, the three line-ending conventions",
+            "NOT modelled: how positions travel from the input layer through parser, checker, generator and VM to the diagnostic (with_pos, Positioned rebuilds, instruction tags, with_err_at, stack trace) - observed end to end by the fault-injection cases only",
+        ],
+        "assumptions": [
+            "the theorem on line endings is stated for non-empty lines (an empty line between two lone CRs cannot be told from CRLF only if followed by LF, which the join never produces; empty lines are covered by the cases)",
+        ],
+    },
     "C08": {
         "coq_targets": ["theories/VM/Safety.vo"],
         "harness": ["c08"],
